@@ -155,6 +155,49 @@ Proof.
   intros d P Hi. split; [apply P1 | apply P2]; exact Hi.
 Qed.
 
+(* ------------------------------------------------------------------ re-keying: store-level frame *)
+Lemma rekey_frame st gid key k : k <> gid -> sget (fst (st_rewrite_delegations st gid key)) k = sget st k.
+Proof.
+  intros Hne. unfold st_rewrite_delegations. destruct (sget st gid); [|reflexivity]. simpl.
+  rewrite sget_supd. apply N.eqb_neq in Hne. rewrite Hne. reflexivity.
+Qed.
+
+Lemma rekey_at st gid key g : sget st gid = Some g ->
+  sget (fst (st_rewrite_delegations st gid key)) gid = Some (fst (rewrite_delegations g key)) /\
+  snd (st_rewrite_delegations st gid key) = snd (rewrite_delegations g key).
+Proof.
+  intros H. unfold st_rewrite_delegations. rewrite H. simpl. rewrite sget_supd, N.eqb_refl, H. auto.
+Qed.
+
+(* partition, re-key one of the partitions in the store, partition again: the source is still what it was and the
+   second partitioning yields the same models *)
+Lemma rekey_then_repartition st garm A sup1 fresh1 st1 dgs1 d gid key sup2 fresh2 st3 dgs2 :
+  sget st garm = Some A -> wfb A = true ->
+  uuid_fresh garm sup1 fresh1 (c_ids (catalog_delegations A)) ->
+  uuid_fresh garm sup2 fresh2 (c_ids (catalog_delegations A)) ->
+  st_generate_adms st garm sup1 fresh1 = (st1, Ok dgs1) -> In (d, gid) dgs1 ->
+  let st2 := fst (st_rewrite_delegations st1 gid key) in
+  st_generate_adms st2 garm sup2 fresh2 = (st3, Ok dgs2) ->
+  gid <> garm /\ sget st2 garm = Some A /\
+  exists L, generate_adms A = Ok L /\ sget st3 garm = Some A /\
+    (forall d' P, In (d', P) L -> sget st3 (gid_for sup2 fresh2 d') = Some P).
+Proof.
+  intros HA Hw U1 U2 R1 Hi st2 R2.
+  destruct (st_generate_adms_ok_inv _ _ _ _ _ _ R1) as [Hne Hok]. rewrite (sview_sget _ _ _ HA) in Hne, Hok.
+  destruct (gid_for_fresh garm sup1 fresh1 _ Hok U1) as [Hfresh _].
+  destruct (store_level _ _ _ _ _ _ _ HA Hw U1 R1) as [L1 [G1 [D1 [S1 _]]]].
+  assert (Hg : gid <> garm).
+  { intros E. apply Hfresh. rewrite D1 in Hi. apply in_map_iff in Hi. destruct Hi as [[d' P] [E' Hi]]. simpl in E'.
+    inversion E'; subst. rewrite (generate_adms_spec A Hw Hne) in G1. inversion G1; subst L1.
+    apply in_map_iff in Hi. destruct Hi as [d'' [E'' Hi]]. inversion E''; subst.
+    apply in_map_iff. exists d. auto. }
+  assert (S2 : sget st2 garm = Some A).
+  { unfold st2. rewrite rekey_frame; [exact S1|]. intros E. apply Hg. symmetry. exact E. }
+  split; [exact Hg|]. split; [exact S2|].
+  destruct (store_level _ _ _ _ _ _ _ S2 Hw U2 R2) as [L2 [G2 [_ [S3 [P3 _]]]]].
+  exists L2. auto.
+Qed.
+
 (* ------------------------------------------------------------------ the gap: closure is one hop deep *)
 (* a -L1- b -L2- c, only a carries a delegation (capacity, id 1).  b is kept as the peer of a; b's other
    link L2 and its peer c are not. *)
